@@ -164,6 +164,21 @@ def partitions(h, w):
         yield [[divmod(c, w) for c in blk] for blk in part]
 
 
+def base_connected(cells):
+    cells = set(map(tuple, cells))
+    if not cells:
+        return False
+    seen = set()
+    todo = [next(iter(cells))]
+    while todo:
+        y, x = todo.pop()
+        if (y, x) in seen:
+            continue
+        seen.add((y, x))
+        todo += [q for q in ((y + 1, x), (y - 1, x), (y, x + 1), (y, x - 1)) if q in cells]
+    return seen == cells
+
+
 def canon_rooms(rooms):
     return sorted(sorted(tuple(c) for c in r) for r in rooms)
 
@@ -174,6 +189,16 @@ def run_room_codecs(part, h, w, cap):
 
     for rooms in partitions(h, w):
         base = {"height": h, "width": w, "rooms": rooms}
+        # a URL of the same size that is refused late (one border drawn inside what is otherwise a single room): offered to each
+        # module decoder right before every judged decode - a refused decode must leave nothing behind
+        nbits = h * (w - 1) + (h - 1) * w
+        nchar = (nbits + 4) // 5
+        for cname, de in (("lits", lits.deserialize_lits), ("norinori", norinori.deserialize_norinori), ("heyawake", heyawake.deserialize_heyawake)):
+            if nchar:
+                try:
+                    de("https://puzz.link/p?%s/%d/%d/%s" % (cname, w, h, "g" + "0" * (nchar - 1) + ("0" if cname == "heyawake" else "")))
+                except Exception:
+                    pass  # judged by C17
         presentations = [rooms, [list(reversed(r)) for r in reversed(rooms)]]
         # further list orders (rotations, a 3-cycle, an interleaving): judged with clue sets of pairwise distinct values only
         extra = []
@@ -252,6 +277,39 @@ def run_room_codecs(part, h, w, cap):
                     part.violation("heyawake:pzpr-reads-different-problem", case, {"url": url, "reference_decoder": [rr, rv]})
                     continue
                 part.add("nontrivial", ("heyawake", url))
+        # one rooms list object whose CONTENT is edited in place (a cell moves to a neighbouring room) between two calls
+        if len(rooms) >= 2:
+            lst = [list(r) for r in rooms]
+            moved = None
+            for i, r in enumerate(lst):
+                for c in r:
+                    if len(r) >= 2 and base_connected([d for d in r if d != c]):
+                        for j, r2 in enumerate(lst):
+                            if j != i and any(abs(c[0] - d[0]) + abs(c[1] - d[1]) == 1 for d in r2):
+                                moved = (i, j, c)
+                                break
+                    if moved:
+                        break
+                if moved:
+                    break
+            if moved:
+                for cname, ser, de in (("lits", lits.serialize_lits, lits.deserialize_lits), ("norinori", norinori.serialize_norinori, norinori.deserialize_norinori),
+                                       ("heyawake", lambda hh, ww, rr: heyawake.serialize_heyawake(hh, ww, rr, [1] * len(rr)), heyawake.deserialize_heyawake)):
+                    lst = [list(r) for r in rooms]
+                    part.count("evaluations")
+                    case = dict(base, codec=cname, rooms=[list(r) for r in rooms], inplace_step="move-cell %r" % (moved,))
+                    try:
+                        ser(h, w, lst)
+                        i, j, c = moved
+                        lst[i].remove(c)
+                        lst[j].append(c)
+                        url = ser(h, w, lst)
+                        back = de(url)
+                        got = back[2][0] if cname == "heyawake" else back[2]
+                        if canon_rooms(got) != canon_rooms(lst):
+                            part.violation("%s{in-place}:stale-after-content-edit" % cname, case, {"url": url, "decoded": repr(got)[:200]})
+                    except Exception as e:
+                        part.violation("%s{in-place}:raises-%s" % (cname, type(e).__name__), case, {"exception": repr(e)[:200]})
         # one rooms list object, reordered in place between two calls of the module-level encoder (clues follow their rooms)
         if len(rooms) >= 3:
             lst = [list(r) for r in rooms]
